@@ -4,6 +4,7 @@ import (
 	"fmt"
 	"testing"
 
+	"github.com/polynetwork/poly/common"
 	"pgregory.net/rapid"
 
 	"verif/harness/ev"
@@ -73,7 +74,11 @@ func genC33(t *rapid.T) c33Case {
 			add(gop{K: kScReg, A: o2, B: ch, C: x + 1}, round(kScApprReg, ch, "r4"), round(kScApprReg, ch, "r5"))
 		}
 	case kScApprUpd:
-		add(gop{K: kScReg, A: o1, B: ch, C: x}, round(kScApprReg, ch, "r1"), gop{K: kScUpd, A: o1, B: ch, C: x + 1},
+		updC := x + 1
+		if rapid.Bool().Draw(t, "noopUpdate") {
+			updC = x // the update equals the registered record: a no-op at the moment of effect
+		}
+		add(gop{K: kScReg, A: o1, B: ch, C: x}, round(kScApprReg, ch, "r1"), gop{K: kScUpd, A: o1, B: ch, C: updC},
 			round(kScApprUpd, ch, "u1"), round(kScApprUpd, ch, "u2"),
 			gop{K: kScQuit, A: o1, B: ch}, round(kScApprQuit, ch, "q"), gop{K: kScReg, A: o2, B: ch, C: x + 2},
 			round(kScApprReg, ch, "r2"), round(kScApprUpd, ch, "u3"))
@@ -86,12 +91,27 @@ func genC33(t *rapid.T) c33Case {
 		if kind == kSvApprReg {
 			reg, rem, aReg, aRem = kSvReg, kSvRem, kSvApprReg, kSvApprRem
 		}
+		if rapid.Bool().Draw(t, "noop") {
+			// a request whose effect is a no-op when the quorum is reached: its list is already registered
+			// (subset / identical) or empty; then the member is removed and the consumed request approved again
+			sub := rapid.SampledFrom([][]int{{o1}, {o1, o2}, {o2, o1}, {}}).Draw(t, "sublist")
+			add(gop{K: reg, A: o1, L: []int{o1, o2}}, round(aReg, 0, "r1"), gop{K: reg, A: o2, L: sub}, round(aReg, 1, "n1"), round(aReg, 1, "n2"),
+				gop{K: rem, A: o1, L: []int{o1}}, round(aRem, 0, "m1"), round(aReg, 1, "n3"))
+			break
+		}
 		add(gop{K: reg, A: o1, L: []int{o1, o2}}, round(aReg, 0, "r1"), round(aReg, 0, "r2"),
 			gop{K: rem, A: o1, L: []int{o1}}, round(aRem, 0, "m1"), round(aReg, 0, "r3"))
 	case kRlApprRem, kSvApprRem:
 		reg, rem, aReg, aRem := kRlReg, kRlRem, kRlApprReg, kRlApprRem
 		if kind == kSvApprRem {
 			reg, rem, aReg, aRem = kSvReg, kSvRem, kSvApprReg, kSvApprRem
+		}
+		if rapid.Bool().Draw(t, "noop") {
+			// removal of members that are not registered (or of nobody): a no-op at the moment of effect
+			sub := rapid.SampledFrom([][]int{{o1}, {o1, o2}, {}}).Draw(t, "sublist")
+			add(gop{K: rem, A: o1, L: sub}, round(aRem, 0, "n1"), round(aRem, 0, "n2"),
+				gop{K: reg, A: o2, L: []int{o1, o2}}, round(aReg, 0, "r1"), round(aRem, 0, "n3"))
+			break
 		}
 		add(gop{K: reg, A: o1, L: []int{o1, o2}}, round(aReg, 0, "r1"), gop{K: rem, A: o1, L: []int{o1}},
 			round(aRem, 0, "m1"), round(aRem, 0, "m2"),
@@ -125,18 +145,20 @@ func genC33(t *rapid.T) c33Case {
 }
 
 type c33Model struct {
-	pending  map[string]bool // kind|id
-	consumed map[string]bool // an approval of kind|id took effect and no request was accepted since
-	stale    map[string]bool // known defect observed for kind|id: the consumed request is still stored
-	phase    map[string]int  // 1 took effect, 2 + family re-created afterwards, 3 + approval attempted while consumed
+	pending  map[string]bool                    // kind|id
+	consumed map[string]bool                    // an approval of kind|id took effect and no request was accepted since
+	stale    map[string]bool                    // known defect observed for kind|id: the consumed request is still stored
+	phase    map[string]int                     // 1 took effect, 2 + family re-created afterwards, 3 + approval attempted while consumed
+	appr     map[string]map[common.Address]bool // accepted approvers per kind|id since the last effect (quorum rule of C32)
 }
 
 func runC33(ctx *ev.Ctx, c c33Case) {
 	if c.N < 4 {
 		c.N = 4
 	}
-	e := newEng(ctx, c.N, 0)
-	m := &c33Model{pending: map[string]bool{}, consumed: map[string]bool{}, stale: map[string]bool{}, phase: map[string]int{}}
+	e := newEng(ctx, c.N, 0, 0)
+	m := &c33Model{pending: map[string]bool{}, consumed: map[string]bool{}, stale: map[string]bool{}, phase: map[string]int{},
+		appr: map[string]map[common.Address]bool{}}
 	neutral := func(k string) bool { // the class is a listed known finding: keep the search away from it
 		kk, ok := c33KnownKey[k]
 		return ok && ev.IsKnown("C33", kk) && !ctx.Replaying
@@ -160,8 +182,36 @@ func runC33(ctx *ev.Ctx, c c33Case) {
 					m.phase[key] = 3
 				}
 			}
+			cons, _, nCons := e.pool().consensus()
 			sr := e.exec(op)
 			what := fmt.Sprintf("step %d %s(%s) by account %d", step, op.K, short(sr.t.req), mod(op.A, len(e.actors)))
+			// "took effect" = the contract said so, OR the quorum of the statement of C32 was reached by this accepted
+			// approval (an approval whose effect is a no-op - everything it asks for already holds - still consumes
+			// the request, whether or not the contract announces it)
+			effect := sr.fired
+			if tracked && sr.res.OK() {
+				set := m.appr[key]
+				if set == nil {
+					set = map[common.Address]bool{}
+					m.appr[key] = set
+				}
+				set[sr.acting] = true
+				cnt := 0
+				for a := range set {
+					if cons[a] > 0 {
+						cnt++
+					}
+				}
+				if cnt >= ceil2of3(nCons) {
+					if !sr.fired {
+						e.label("quorum-reached-without-took-effect-notification:" + op.K)
+					}
+					effect = true
+				}
+				if effect {
+					delete(m.appr, key)
+				}
+			}
 			if sr.res.Panic != "" && !e.neo3AbsentPanic(sr) {
 				ctx.Failf("%s panicked: %s", what, sr.res.Panic)
 			}
@@ -178,7 +228,7 @@ func runC33(ctx *ev.Ctx, c c33Case) {
 				if op.K == kUnregCand {
 					m.pending[kApprCand+"|"+sr.t.req] = false
 				}
-				if tracked && sr.fired {
+				if tracked && effect {
 					e.label("took-effect:" + op.K)
 					if !m.pending[key] {
 						msg := fmt.Sprintf("%s took effect although the request was consumed by an earlier approval and no fresh request was made", what)
@@ -277,7 +327,7 @@ func c33Compare(e *eng, m *c33Model, what string) {
 func TestC33(t *testing.T) {
 	ev.Drive(t, "C33",
 		"cases: N=4..8 (thorough 16) validators; one scenario per request kind (side-chain register/update/quit, relayer register/remove, state-validator register/remove, candidacy): "+
-			"request, approval round to effect, SECOND approval round on the same id, re-creation of the target (chain re-registered under another owner / relayer re-registered / candidate quit and epoch change), THIRD round; "+
+			"request, approval round to effect, SECOND approval round on the same id, no-op requests (lists already registered / not registered / empty, update equal to the record); re-creation of the target (chain re-registered under another owner / relayer re-registered / candidate quit and epoch change), THIRD round; "+
 			"round sizes vary (threshold, threshold-1, all, 1), up to 5 arbitrary governance transactions inserted anywhere and an arbitrary tail. "+
 			"non-trivial: some request took effect, its target family was re-created afterwards, and a further approval of the consumed request was attempted; distinct by JSON of the case",
 		genC33, runC33)
